@@ -25,6 +25,34 @@ type psQuery struct {
 	Blocked map[*ssa.BasicBlock]bool // blocks that may not be entered
 	Targets map[*ssa.BasicBlock]bool // success: reach any of these (after Via, if set)
 	Limit   int
+	Seed    []psSeed // branch outcomes assumed known from the entry on (a parameter's truth value)
+	ViaSeed []psSeed // ... known from the moment the path passes Via (what a call made there establishes)
+}
+
+// psSeed: the bool value V is assumed to be Truth; or (A set) the atom A is assumed to hold / not to hold.
+type psSeed struct {
+	V     ssa.Value
+	Truth bool
+	A     *Atom
+}
+
+// seedFact turns an assumption into the fact a branch on the same condition will look up.
+func (c *Ctx) seedFact(sd psSeed) *psFact {
+	var a Atom
+	holds := sd.Truth
+	if sd.A != nil {
+		a = *sd.A
+	} else {
+		var pos bool
+		a, pos = decompose(sd.V)
+		holds = sd.Truth == pos
+	}
+	key, defs, maps := c.atomKey(a)
+	val := "F"
+	if holds {
+		val = "T"
+	}
+	return &psFact{key: key, val: val, defs: defs, maps: maps, x: strip(a.X)}
 }
 
 type psFact struct {
@@ -185,6 +213,16 @@ func (c *Ctx) pathExists(q psQuery) (bool, []int) {
 		prev *node
 	}
 	init := &psState{blk: start, facts: map[string]*psFact{}, passed: q.Via == nil || q.Via == start}
+	for _, sd := range q.Seed {
+		f := c.seedFact(sd)
+		init.facts[f.key] = f
+	}
+	if init.passed {
+		for _, sd := range q.ViaSeed {
+			f := c.seedFact(sd)
+			init.facts[f.key] = f
+		}
+	}
 	seen := map[string]bool{init.id(): true}
 	stack := []*node{{init, nil}}
 	explored := 0
@@ -352,6 +390,12 @@ func (c *Ctx) pathExists(q psQuery) (bool, []int) {
 					v = fmt.Sprint(constant.BoolVal(cst.Value))
 				}
 				nf[k] = &psFact{key: k, val: v, defs: map[*ssa.BasicBlock]bool{}}
+			}
+			if !s.passed && to == q.Via {
+				for _, sd := range q.ViaSeed {
+					f := c.seedFact(sd)
+					nf[f.key] = f
+				}
 			}
 			ns := &psState{blk: to, facts: nf, passed: s.passed || to == q.Via}
 			id := ns.id()
